@@ -389,4 +389,10 @@ func init() {
 		all = append(all, readerMakers[p]...)
 	}
 	readerMakers["C10"] = append(all, c06...)
+	// C14: the MI encoder and decoder, for the schedule-dependent configurations
+	readerMakers["C14"] = []func(c *core.Ctx) *inst{
+		func(c *core.Ctx) *inst { return miceInst(c, "mice") },
+		func(c *core.Ctx) *inst { return miceDigestInst(c, "miced") },
+		func(c *core.Ctx) *inst { return miDecodeInst(c, "rmice") },
+	}
 }
